@@ -68,6 +68,53 @@ Proof.
   exact Down.
 Qed.
 
+(* ---------- a dotted path reaches what its normalised form reaches ---------- *)
+Notation twalk := (Spec.twalk upper).
+Notation lexnorm := (Spec.lexnorm upper).
+Lemma twalk_snoc q : forall t x,
+  twalk t (q ++ [x]) =
+  match twalk t q with
+  | Err e => Err e
+  | Ok None => Ok None
+  | Ok (Some (File _)) => Err NotADirectory
+  | Ok (Some (Dir ch)) => match tfind (upper x) ch with None => Ok None | Some n => Ok (Some n) end
+  end.
+Proof.
+  induction q as [|h r IH]; intros t x; cbn [app Spec.twalk].
+  - destruct t as [sz|ch]; [reflexivity|]. destruct (tfind (upper x) ch); reflexivity.
+  - destruct t as [sz|ch]; [reflexivity|]. destruct (tfind (upper h) ch) as [c|]; [apply IH|reflexivity].
+Qed.
+
+(* [stk] / [acc] / [t]: the directories passed, the names that led through them, the node reached *)
+Fixpoint consistent (root : node) (stk : list node) (acc : list name) (t : node) : Prop :=
+  match stk, acc with
+  | [], [] => t = root
+  | p :: stk', x :: acc' => consistent root stk' acc' p /\ exists ch, p = Dir ch /\ tfind (upper x) ch = Some t
+  | _, _ => False
+  end.
+Lemma consistent_walk root : forall stk acc t, consistent root stk acc t -> twalk root (rev acc) = Ok (Some t).
+Proof.
+  induction stk as [|p stk IH]; intros [|x acc] t C; cbn [consistent] in C; try contradiction.
+  - subst. reflexivity.
+  - destruct C as (C & ch & -> & F). cbn [rev]. rewrite twalk_snoc, (IH acc _ C), F. reflexivity.
+Qed.
+Theorem twalkd_lexnorm root parts : forall stk acc t n, consistent root stk acc t ->
+  twalkd stk t parts = Ok (Some n) -> twalk root (lexnorm acc parts) = Ok (Some n).
+Proof.
+  induction parts as [|h r IH]; intros stk acc t n C H.
+  - cbn in H. inversion H; subst. cbn [Spec.lexnorm]. apply (consistent_walk root stk acc n C).
+  - cbn [Spec.twalkd] in H. destruct t as [sz|ch]; [discriminate|].
+    assert (Down : match tfind (upper h) ch with None => Ok None | Some n0 => twalkd (Dir ch :: stk) n0 r end = Ok (Some n) ->
+                   twalk root (lexnorm (h :: acc) r) = Ok (Some n)).
+    { destruct (tfind (upper h) ch) as [c|] eqn:F; [|discriminate]. intros W.
+      apply (IH (Dir ch :: stk) (h :: acc) c n); [|exact W]. cbn [consistent]. split; [exact C|]. exists ch. auto. }
+    destruct stk as [|p stk']; destruct acc as [|x acc']; cbn [consistent] in C; try contradiction.
+    + cbn [Spec.lexnorm]. apply (Down H).
+    + cbn [Spec.lexnorm]. destruct (FatNames.Model.beq (upper h) [46]); [apply (IH (p :: stk') (x :: acc') (Dir ch) n C H)|].
+      destruct (FatNames.Model.beq (upper h) [46; 46]); [|apply (Down H)].
+      destruct C as (C & _). apply (IH stk' acc' p n C H).
+Qed.
+
 (* ---------- the walk over the records ---------- *)
 Lemma walkd_cons s cur h rest :
   walkd s cur (h :: rest) =
@@ -248,6 +295,17 @@ Proof.
   { intros _. cbn [r_index]. symmetry. apply (stack_root s depth T). }
   specialize (H ST). cbn [ProofsWalk.cur_node] in H.
   destruct (Model.walkd upper s RRoot parts) as [[| |i e]|x]; try exact H; apply H.
+Qed.
+
+(* what a dotted path reaches is what its normalised, dot-free form reaches in the tree: the file served for
+   "a/b/../c" is the file at "a/c" *)
+Theorem resolved_is_normalised_path upper V s parts r : VolInv upper V s -> ProofsWalk.tilde_free upper parts ->
+  resolved upper s parts = Ok r -> r <> RNone ->
+  Spec.twalk upper (abs_tree s) (Spec.lexnorm upper [] parts) = Ok (Some (ProofsWalk.cur_node s r)).
+Proof.
+  intros I TF E Hn. pose proof (resolved_refines upper V s parts I TF) as H. rewrite E in H.
+  apply (twalkd_lexnorm upper (abs_tree s) parts [] [] (abs_tree s)); [reflexivity|].
+  destruct r; [contradiction| |]; exact H.
 Qed.
 
 (* ... and so whatever a path spells, it reaches a node of this volume's tree or nothing *)
